@@ -321,8 +321,19 @@ def r9_4(ctx):
         if e.kind == "store" and e.cls:
             reset.add((ctx.types.field_owner(e.cls, e.attr) or e.cls, e.attr))
     written = {}
-    for g in sim_reach(ctx, precise=True):
+    funcs = list(sim_reach(ctx, precise=True))
+    # a backward run and the log reversal belong to "running a simulation" too
+    for nm in ("backward_simulate", "reverse_log_information"):
+        g0 = ctx.repo.lookup_method(PROJECT, nm)
+        if g0 is not None:
+            funcs.extend(ctx.eff.reachable([g0], precise=True, stop=lambda fn: fn.name in ("simulate",)))
+    structure = {"input_task_list", "output_task_list", "input_workplace_list", "output_workplace_list", "task_list"}
+    for g in funcs:
         for e in ctx.eff.of(g):
+            if e.attr in structure and g.name in ("reverse_dependencies", "backward_simulate", "append_input_task"):
+                continue  # swapped and swapped back / helper tasks removed again: C17 R17.1-R17.3
+            if g.name == "__init__":
+                continue
             if e.kind in ("store", "mut") and e.cls and not e.attr.startswith("dummy_"):
                 owner = ctx.types.field_owner(e.cls, e.attr) or e.cls
                 written.setdefault((owner, e.attr), e)
@@ -349,3 +360,5 @@ def run(ctx):
     r9_3(ctx)
     r9_4(ctx)
     r9_5(ctx)
+    from .C14 import r14_2
+    r14_2(ctx)  # derived state (component state) must be re-derived after the tasks were reset, or a second run starts from leftovers
